@@ -111,9 +111,11 @@ pub fn turn(what: &str) {
         g = ng;
         if to.timed_out() {
             if let Some(s) = g.as_mut() {
-                // the schedule cannot be followed (the code's steps differ from the model's)
+                // the schedule cannot be followed (the code's steps differ from the model's, or the
+                // thread whose turn it is blocks outside a gate): from here on best effort
                 s.desync = true;
                 s.free_run = true;
+                s.running = None;
                 CV.notify_all();
             }
         }
